@@ -320,7 +320,7 @@ Lemma Swap3_unitary : forall rho, Cunitary 9 (meval rho (m_swap 3)). Proof. exac
 Lemma contract_CSUM3' : gate_contract (G_CSUM 3). Proof. by_table grid_gates_contract. Qed.
 Lemma CSUM3_unitary : forall rho, Cunitary 9 (meval rho (m_csum 3)). Proof. exact (unitary_of _ contract_CSUM3'). Qed.
 
-(* the repaired CKM gradients of fixes/D14.patch ARE the derivative, for all parameters *)
+(* the repaired CKM gradients of fixes/C18-F1.patch ARE the derivative, for all parameters *)
 Lemma contract_CKM_fixed : gate_contract G_CKM_fixed.
 Proof. apply gate_ok_sound. vm_compute. reflexivity. Qed.
 Lemma contract_CKMdg_fixed : gate_contract G_CKMdg_fixed.
